@@ -330,6 +330,12 @@ func (c *HCFacts) Lean(b *strings.Builder) {
 		}
 	}
 	fmt.Fprintf(b, "/-- registered Lua functions from which one of those callbacks is reachable: (table.name, callback) -/\ndef cInternalRoutes : List (String × String) := %s\n\n", hLeanTuples(hT2(registered)))
+	var refusing []string
+	for _, r := range c.Refusing {
+		refusing = append(refusing, r)
+	}
+	fmt.Fprintf(b, "/-- exported Go callbacks with a branch on a read-only flag that returns an error (the refusing guards) -/\ndef refusingCallbacks : List String := %s\n\n", hLeanStrList(refusing))
+	fmt.Fprintf(b, "/-- how the C wrappers treat the value returned by the Go callbacks that refuse with an error: (callback, C function, test of the returned value with `r` for the variable and `call` for the call, raise|noraise) -/\ndef cErrChecks : List (String × String × String × String) := %s\n\n", hLeanTuples(hT4(c.ErrChecks)))
 	fmt.Fprintf(b, "/-- assignments to the LuaJIT view-bracket function pointers: (pointer, function) -/\ndef cFnPtrWiring : List (String × String) := %s\n\n", hLeanTuples(hT2(c.FnPtrWiring)))
 }
 
